@@ -59,6 +59,9 @@ def check(P: Project, R: Report) -> None:
             shield = [k for it in w.items if isinstance(it.context_expr, ast.Call) for k in it.context_expr.keywords if k.arg == "shield"]
             R.ob("R1", "deadline scope is not shielded", not shield, f"{srel}:{w.lineno}", "")
 
+    probs = _sendmsg.deadline_problems(W)
+    R.ob("R1", "the overall deadline cannot be moved or bypassed", not probs, f"{srel}:{W.wait_call.lineno}", "; ".join(probs), sample="R1 with anyio.fail_after(timeout): scope neither captured nor rewritten")
+
     # ------------------------------------------------------------------ R2
     tree = [send, wait] + ([W.cancel_check] if W.cancel_check else [])
     for f in tree:
@@ -202,13 +205,17 @@ def check(P: Project, R: Report) -> None:
         R.ob("R4", "send_cancelled_notification writes one notifications/cancelled naming requestId", ok, notif.where, f"writes {ws}")
 
     # ------------------------------------------------------------------ R5
-    cb_calls = []
-    for c in walk_local(W.loop):
-        if isinstance(c, ast.Call) and isinstance(c.func, ast.Name) and c.func.id in wait.params() and c.func.id != chk_param:
-            cb_calls.append(c)
-    R.need(len(cb_calls) == 1, f"anchor: expected one progress callback call in the wait loop, found {len(cb_calls)}")
+    cb_param = None
+    for k, v in W.binding.items():
+        if ast.unparse(v) == "progress_callback":
+            cb_param = k
+    R.need(cb_param is not None, "anchor: the progress callback is not passed to the wait")
+    cb_calls = [c for c in walk_local(W.loop) if isinstance(c, ast.Call) and isinstance(c.func, ast.Name) and c.func.id == cb_param]
+    R.need(len(cb_calls) == 1, f"anchor: expected one call of the progress callback in the wait loop, found {len(cb_calls)}")
     cb = cb_calls[0]
-    cb_param = cb.func.id
+    others = sorted({c.func.id for c in walk_local(W.loop) if isinstance(c, ast.Call) and isinstance(c.func, ast.Name) and c.func.id in wait.params() and c.func.id not in (cb_param, chk_param)})
+    if others:
+        R.sample(f"R5 other callables invoked from the wait loop: {others}")
     tok_param = None
     for k, v in W.binding.items():
         if "progress_token" in ast.unparse(v) and k != cb_param:
